@@ -314,9 +314,84 @@ func (c *Ctx) ruleLocks() {
 		}
 	}
 
+	// ---- L6: the mutex is installed once (a second SetMutex must not replace a mutex somebody holds)
+	for _, f := range c.p.Funcs {
+		ord := newOrdinal()
+		var fa *FnAnalysis
+		for _, b := range f.Blocks {
+			for _, in := range b.Instrs {
+				st, ok := in.(*ssa.Store)
+				if !ok {
+					continue
+				}
+				fad, ok := st.Addr.(*ssa.FieldAddr)
+				if !ok || fieldName(fad) != "nodeConfig.mtx" {
+					continue
+				}
+				if fa == nil {
+					fa = c.eng.analyze(f, nil)
+				}
+				construct := ord.next("L6 mutex installed once")
+				okAll := fa.allHold(in, func(s *State) bool {
+					// the slot is known to be nil here (fresh configuration, or tested)
+					if _, isAlloc := fad.X.(*ssa.Alloc); isAlloc {
+						return true
+					}
+					at := fa.term(s, fad)
+					for _, f2 := range s.factList() {
+						if f2.Kind == aNN && !f2.Val && f2.T.K == "L" && f2.T.A == at {
+							return true
+						}
+					}
+					return false
+				})
+				if okAll {
+					rep.ok("R-LOCK", relName(f), construct, c.p.instrPos(in), "the mutex slot is written only when it is nil")
+				} else {
+					rep.bad("R-LOCK", relName(f), construct, c.p.instrPos(in), "the mutex can be replaced while it exists: a goroutine holding the old one and one locking the new one are both inside the critical section, and the old holder unlocks a mutex it never locked")
+				}
+			}
+		}
+	}
+
 	// ---- L4: re-entrancy and pairing
 	c.ruleLockReentry("R-LOCK", c.p.Funcs)
-	for _, f := range c.p.Funcs {
+	c.ruleLockPairing("R-LOCK", c.p.Funcs)
+
+	// ---- L5: unlocked reads (design level; reported one per construct, expected to be known findings)
+	for _, n := range lockMutators {
+		f := c.p.ByName[n]
+		if f == nil {
+			continue
+		}
+		var reads []string
+		for _, b := range f.Blocks {
+			for _, in := range b.Instrs {
+				if call, ok := in.(*ssa.Call); ok {
+					switch c.calleeName(&call.Call) {
+					case "Stack.IsInit", "Stack.getState", "Stack.IsEmpty":
+						reads = append(reads, c.calleeName(&call.Call))
+					}
+				}
+			}
+		}
+		if len(reads) > 0 {
+			rep.bad("R-LOCK", n, "L5 unlocked pre-check", c.p.pos(f.Pos()), "the exported method reads the configuration slot ("+strings.Join(uniq(reads), ", ")+") before the worker takes the lock: with the mutex enabled this read races with a concurrent mutator that rewrites the header or the lock bookkeeping (the mutex lives inside slot 0 of the data it protects)")
+		} else {
+			rep.ok("R-LOCK", n, "L5 unlocked pre-check", c.p.pos(f.Pos()), "no unlocked read")
+		}
+	}
+	if f := c.p.ByName["(*stack).lock"]; f != nil {
+		rep.bad("R-LOCK", "(*stack).lock", "L5 mutex found through the data it protects", c.p.pos(f.Pos()), "lock() reads slot 0 of the shared slice (canMutex, mutex) to find the mutex before holding it: this read races with a mutator that stores a new header under the lock")
+	}
+}
+
+
+// ruleLockPairing: every lock() is followed at once by a deferred unlock() of the same
+// stack, or by an unlock() on every path to a return.
+func (c *Ctx) ruleLockPairing(rule string, scope []*ssa.Function) {
+	rep := c.rep
+	for _, f := range scope {
 		if len(f.Blocks) == 0 {
 			continue
 		}
@@ -351,7 +426,7 @@ func (c *Ctx) ruleLocks() {
 				}
 			}
 			if deferred {
-				rep.ok("R-LOCK", relName(f), construct, c.p.instrPos(lk), "unlock() is deferred immediately after the acquisition")
+				rep.ok(rule, relName(f), construct, c.p.instrPos(lk), "unlock() is deferred immediately after the acquisition")
 				continue
 			}
 			// otherwise: no return is reachable inside the held region
@@ -374,39 +449,13 @@ func (c *Ctx) ruleLocks() {
 				}
 			}
 			if leak == "" {
-				rep.ok("R-LOCK", relName(f), construct, c.p.instrPos(lk), "every path from the acquisition to a return passes unlock()")
+				rep.ok(rule, relName(f), construct, c.p.instrPos(lk), "every path from the acquisition to a return passes unlock()")
 			} else {
-				rep.bad("R-LOCK", relName(f), construct, c.p.instrPos(lk), "a return at "+leak+" is reachable with the lock still held and no deferred unlock: the next caller blocks forever")
+				rep.bad(rule, relName(f), construct, c.p.instrPos(lk), "a return at "+leak+" is reachable with the lock still held and no deferred unlock: the next caller blocks forever")
 			}
 		}
 	}
 
-	// ---- L5: unlocked reads (design level; reported one per construct, expected to be known findings)
-	for _, n := range lockMutators {
-		f := c.p.ByName[n]
-		if f == nil {
-			continue
-		}
-		var reads []string
-		for _, b := range f.Blocks {
-			for _, in := range b.Instrs {
-				if call, ok := in.(*ssa.Call); ok {
-					switch c.calleeName(&call.Call) {
-					case "Stack.IsInit", "Stack.getState", "Stack.IsEmpty":
-						reads = append(reads, c.calleeName(&call.Call))
-					}
-				}
-			}
-		}
-		if len(reads) > 0 {
-			rep.bad("R-LOCK", n, "L5 unlocked pre-check", c.p.pos(f.Pos()), "the exported method reads the configuration slot ("+strings.Join(uniq(reads), ", ")+") before the worker takes the lock: with the mutex enabled this read races with a concurrent mutator that rewrites the header or the lock bookkeeping (the mutex lives inside slot 0 of the data it protects)")
-		} else {
-			rep.ok("R-LOCK", n, "L5 unlocked pre-check", c.p.pos(f.Pos()), "no unlocked read")
-		}
-	}
-	if f := c.p.ByName["(*stack).lock"]; f != nil {
-		rep.bad("R-LOCK", "(*stack).lock", "L5 mutex found through the data it protects", c.p.pos(f.Pos()), "lock() reads slot 0 of the shared slice (canMutex, mutex) to find the mutex before holding it: this read races with a mutator that stores a new header under the lock")
-	}
 }
 
 // withConcurrent runs fn with an engine in which acquiring a lock invalidates
